@@ -6,6 +6,7 @@ import copy
 from typing import Any, Dict, List, Optional, Set
 
 from .. import astutil as A
+from .. import norm as N
 from .. import cfg as C
 from ..core import Ctx
 from .common import margin_rule_early_exits
@@ -358,6 +359,27 @@ def rule_estimate(ctx: Ctx) -> None:
         dom = g.path_avoiding(g.entry, lambda n: n is g.nodes_for(cf[0])[0], lambda n: n is g.nodes_for(rb[0])[0]) is None
         ctx.check(same and dom, "C06.5", "estimated fees are computed on the rounded estimate", est, cf[0], "rounding dominates calculate_fees "
                   "on the same map", "fees are estimated on the unrounded notional")
+    # the price the reservation is computed at bounds the price the fill can be charged at: for orders that carry a limit, C04.1 shows
+    # every fill is at the limit or better, so reserving at the limit price covers it -- any other estimate (e.g. the stop price) does not
+    ORD_ = "basana.backtesting.orders"
+    n_lim = 0
+    for cq, ci_ in sorted(ctx.repo.classes.items()):
+        if not cq.startswith(ORD_ + "."):
+            continue
+        ms = ctx.repo.methods_of(cq)
+        init = ms.get("__init__")
+        if init is None or not any(A.dotted(s_.target) == "self._limit_price" for s_ in A.stores(init)):
+            continue
+        n_lim += 1
+        ef = ms.get("calculate_estimated_fill_price")
+        rets_ = [N.canon(r.value) for r in C.walk_shallow(ef.node) if isinstance(r, ast.Return) and r.value is not None] if ef is not None else []
+        ctx.check(ef is not None and bool(rets_) and all(r == "self._limit_price" for r in rets_), "C06.5",
+                  f"{cq.rsplit('.', 1)[-1]} reserves at its limit price (the worst price it can be filled at)", ef if ef is not None else init,
+                  ef.node if ef is not None else init.node, "return self._limit_price",
+                  f"{cq.rsplit('.', 1)[-1]}.calculate_estimated_fill_price returns {rets_ or 'nothing of its own'}: the funds put on hold at acceptance are computed at a "
+                  "price other than the limit, so the order can be accepted with less than it may have to pay (or rejected with exactly enough)",
+                  key_text=f"estimate price {cq}")
+    ctx.floor("C06.5", "order classes with a limit price", n_lim, 2)
     ret = [n for n in C.walk_shallow(est.node) if isinstance(n, ast.Return) and n.value is not None]
     okr = False
     if ret:
